@@ -5,19 +5,28 @@ Two models run side by side:
 * the ARENA model (`TboxModel/C16/Arena.lean`) executes every case (any machine may be the target
   of a script call or of a top-level call, a machine may be attached to several states,
   definition calls after `go`, any nesting depth);
-* the TREE model (`TboxModel/C16/Model.lean`, the one the theorems are about) executes the cases
-  inside its fragment: every machine attached at most once, script targets = own machine or an
-  ancestor, calls addressed to the root, no definition call after `go`, depth ≤ `maxDepth`.
+* the TREE model (`TboxModel/C16/Model.lean`) executes the cases inside the domain of
+  `C16_arena_conforms` (`hier`, ArenaTreeDefs.lean): every machine attached at most once, script
+  targets = own machine or an ancestor, no definition call in a script; calls addressed to the
+  root, no definition call after `go`, depth ≤ `maxDepth`.
   On those cases both answers must agree; a disagreement prints `M MODEL-MISMATCH` (the harness
   never prints it, so the check flags it).
 Both use the code with patches C16-01 and C16-02.
 
 `json [@k]` (after `go`) prints `toJson()` of machine `k` (default: the root) as one canonical line
-`P J …` (`TboxModel/C16/Json.lean`) followed by the snapshot line. -/
+`P J …` (`TboxModel/C16/Json.lean`) followed by the snapshot line; refused (`bad-op`) when an attachment
+cycle is reachable from `k` (`toJson` recurses without bound there).
+
+`tpl <definition call>` (before `go`, outside `mach … end`) appends one definition call to the case's
+table (`TboxModel/C16/ArenaDef.lean`); the script op `d<i>[@k]` performs entry `i` on machine `k`
+(default: the owner of the callback) WHILE THE MACHINES RUN and prints `call[@k] def<i> <ret> <view> <view>`.
+The arena side runs `dCall tpl`; cases with a `d` op are outside the tree fragment. -/
 import TboxModel.Util
 import TboxModel.C16.Arena
 import TboxModel.C16.Json
 import TboxModel.C16.Model
+import TboxModel.C16.ArenaDef
+import TboxModel.C16.ArenaTreeDefs
 open Tbox.Util Tbox.C16
 
 /-- deepest nesting the tree model is instantiated at by the driver (the theorems hold for all depths) -/
@@ -57,7 +66,10 @@ def sop? (t0 : String) : Option SOp := do
   | "s" => some (.call tgt .start)
   | "x" => some (.call tgt .stop)
   | "r" => some (.call tgt .restart)
-  | _ => if t.startsWith "e" then (event? (t.drop 1).toString).map (fun e => .call tgt (.run e)) else none
+  | _ =>
+    if t.startsWith "e" then (event? (t.drop 1).toString).map (fun e => .call tgt (.run e))
+    else if t.startsWith "d" then (nat? (t.drop 1).toString).map (fun i => .call tgt (.defn i))
+    else none
 
 /-- "." = empty script; else comma separated ops -/
 def script? (s : String) : Option Script :=
@@ -104,6 +116,13 @@ def scriptMax (sc : Script) : Option Nat :=
     | none, some b => some b
     | a, none => a) none
 
+/-- largest index of a definition-table entry a script refers to -/
+def scriptMaxD (sc : Script) : Option Nat :=
+  sc.foldl (fun acc op =>
+    match op with
+    | .call _ (.defn i) => (match acc with | some a => some (max a i) | none => some i)
+    | _ => acc) none
+
 def maxOpt (a b : Option Nat) : Option Nat :=
   match a, b with
   | some x, some y => some (max x y)
@@ -111,61 +130,22 @@ def maxOpt (a b : Option Nat) : Option Nat :=
   | none, y => y
 
 def optScriptMax (p : Option Script) : Option Nat := p.bind scriptMax
+def optScriptMaxD (p : Option Script) : Option Nat := p.bind scriptMaxD
 
-/-! ### tree model plumbing -/
-
-def StateDef.withSub {A B : Type} (s : StateDef A) (x : Option B) : StateDef B :=
-  { id := s.id, enter := s.enter, exit := s.exit, routes := s.routes, events := s.events, dflt := s.dflt, sub := x }
-
-/-- arena → tree of depth ≤ n below machine `k` (fails when nested deeper) -/
-def conv : (n : Nat) → Arena → Nat → Option (Mach n)
-  | 0, g, k => do
-      let r ← g[k]?
-      let sts ← r.states.mapM (fun s => match s.sub with
-        | none => some (StateDef.withSub s (none : Option Empty))
-        | some _ => none)
-      pure ({ mid := k, init := r.init, states := sts, cb := r.cb, rt := r.rt } : MachOf Rt Empty)
-  | n + 1, g, k => do
-      let r ← g[k]?
-      let sts ← r.states.mapM (fun s => match s.sub with
-        | none => some (StateDef.withSub s (none : Option (Mach n)))
-        | some j => (conv n g j).map (fun x => StateDef.withSub s (some x)))
-      pure ({ mid := k, init := r.init, states := sts, cb := r.cb, rt := r.rt } : MachOf Rt (Mach n))
-
-/-- machines below `k` (with `k`), each with the list of its ancestors; `none` if a machine is met twice -/
-def treeNodes : Nat → Arena → Nat → List Nat → Option (List (Nat × List Nat))
-  | 0, _, _, _ => none
-  | f + 1, g, k, anc => do
-      let r ← g[k]?
-      let subs := r.states.filterMap (·.sub)
-      let below ← subs.mapM (fun j => treeNodes f g j (k :: anc))
-      pure ((k, anc) :: below.flatten)
-
-def allScripts (r : ARec) : List Script :=
-  r.cb.toList ++ r.states.flatMap (fun s =>
-    s.enter.toList ++ s.exit.toList ++
-    s.routes.flatMap (fun rt => (rt.guard.map (·.script)).toList ++ rt.action.toList) ++
-    s.events.map (fun p => p.2.script) ++ (s.dflt.map (·.script)).toList)
-
-/-- the case is inside the tree model's fragment -/
-def inFragment (g : Arena) (root : Nat) : Bool :=
-  match treeNodes (g.length + 1) g root [] with
-  | none => false
-  | some nodes =>
-    let ids := nodes.map (·.1)
-    ids.eraseDups.length == ids.length &&
-    nodes.all (fun (k, anc) =>
-      (allScripts (g.get k)).all (fun sc => sc.all (fun op =>
-        let t := match op with | .obs t => t | .call t _ => t
-        match t with
-        | none => true
-        | some j => j == k || anc.contains j)))
+/-! ### tree model plumbing: `conv`, `hier` (the domain of `C16_arena_conforms`), `treeNodes`, `midOf`, `viewsOf` are library
+definitions (TboxModel/C16/ArenaTreeDefs.lean): the run-time comparison of the two models is made exactly on the stores the
+refinement theorem speaks about -/
 
 structure DS where
   g : Arena := []
   cur : Option Nat := none
   root : Option Nat := none
   maxT : Option Nat := none
+  /-- the table of definition calls (`tpl` lines), the largest entry a script refers to, the largest
+  machine index a `sub` entry attaches -/
+  tpl : Tpl := []
+  maxD : Option Nat := none
+  maxJ : Option Nat := none
   tree : Option (Mach maxDepth) := none
 
 def b01 (b : Bool) : String := if b then "1" else "0"
@@ -177,6 +157,7 @@ def evS (e : Event) : String := if e.extra == 0 then toString e.id else s!"{e.id
 
 def callStr : Call → String
   | .start => "start" | .stop => "stop" | .restart => "restart" | .run e => "run:" ++ evS e
+  | .defn i => s!"def{i}"
 
 def tgtS (t : Option Nat) : String := match t with | none => "" | some k => s!"@{k}"
 
@@ -203,25 +184,6 @@ def snapLine (g : Arena) : String :=
   "P S " ++ " ".intercalate ((List.range g.length).map fun k => s!"{k}:" ++ viewStr (g.view k))
 
 /-! tree side: events carry the path from the root; print them with the machine index -/
-section
-variable {Sub : Type}
-def midLevel (subMid : Sub → List StateId → Option Nat) (m : MachOf Rt Sub) : List StateId → Option Nat
-  | [] => some m.mid
-  | s :: rest => match (m.findState s).bind (·.sub) with
-    | some x => subMid x rest
-    | none => none
-def viewsLevel (subViews : Sub → List (Nat × View)) (m : MachOf Rt Sub) : List (Nat × View) :=
-  (m.mid, m.rt.view) :: m.states.flatMap (fun s => match s.sub with | some x => subViews x | none => [])
-end
-
-def midOf : (n : Nat) → Mach n → List StateId → Option Nat
-  | 0 => midLevel (fun x _ => x.elim)
-  | n + 1 => midLevel (midOf n)
-
-def viewsOf : (n : Nat) → Mach n → List (Nat × View)
-  | 0 => viewsLevel (fun x => x.elim)
-  | n + 1 => viewsLevel (viewsOf n)
-
 def treeTrace (m : Mach maxDepth) (tr : Trace) : List String :=
   tr.filterMap fun ev => (kindStr ev.kind).map fun s => s!"P T {(midOf maxDepth m ev.path).getD 999999} " ++ s
 
@@ -234,7 +196,10 @@ def depthOf (g : Arena) (root k : Nat) : Nat :=
   | some nodes => match nodes.find? (·.1 == k) with | some (_, anc) => anc.length | none => 9
   | none => 9
 
-def evTag (depth : Nat → Nat) (ev : AEv) : List String :=
+def defKind : DefOp → String
+  | .newState .. => "st" | .addRoute .. => "rt" | .addEvent .. => "ev" | .setInit _ => "init" | .setSub .. => "sub" | .setCb _ => "cb"
+
+def evTag (tpl : Tpl) (depth : Nat → Nat) (ev : AEv) : List String :=
   let d := s!"depth{depth ev.mid}"
   let x := fun (e : Event) => if e.extra != 0 then ["extra"] else []
   match ev.kind with
@@ -243,16 +208,21 @@ def evTag (depth : Nat → Nat) (ev : AEv) : List String :=
   | .action _ (some _) _ has => [if has then "route-action" else "route-noaction"]
   | .action _ none _ _ => ["handler-go"]
   | .guard _ i _ r => [if r then "guard-true" else "guard-false", if i > 0 then "guard-later-route" else "guard-first-route"]
-  | .handler _ k _ r => [if k.isSome then "hdl-specific" else "hdl-default", if r == -1 then "hdl-stay" else "hdl-target"]
+  | .handler _ k _ r => [if k.isSome then "hdl-specific" else "hdl-default",
+                         if r == -1 then "hdl-stay" else if r < 0 then "hdl-stay-below-minus-1" else "hdl-target"]
   | .notify a b _ _ => [if a == b then "self-transition" else "chg"]
   | .obs t v => [if t.isSome then "obs-other" else if v.curr == -1 then "obs-in-action" else if v.next != -1 then "obs-in-exit" else "obs"]
+  | .call t (.defn i) r v _ =>
+      let kd := match tpl[i]? with | some d => defKind d | none => "none"
+      [s!"defcb-{kd}", if t.isNone || t == some ev.mid then "defcb-self" else "defcb-other",
+       if v.running then "defcb-on-running" else "defcb-on-stopped", if r then "defcb-true" else "defcb-false"]
   | .call t _ r v w =>
       [if t.isNone || t == some ev.mid then "call-self" else if depth (t.getD 0) < depth ev.mid then "call-up" else "call-down-or-side",
        if r || v != w then "call-accepted" else "call-no-effect"]
   | .unmodelled => ["UNMODELLED"]
   | .foreign _ => ["FOREIGN"]
 
-def callTags (depth : Nat → Nat) (c : Call) (direct : Bool) (before : View) (res : Bool) (tr : ATrace) : List String :=
+def callTags (tpl : Tpl) (depth : Nat → Nat) (c : Call) (direct : Bool) (before : View) (res : Bool) (tr : ATrace) : List String :=
   let deepExit := tr.any (fun ev => depth ev.mid > 0 && match ev.kind with | .exit .. => true | _ => false)
   let c1 := match c with
     | .start => [if res then "start-ok" else if before.running then "start-again" else "start-fail"]
@@ -260,7 +230,8 @@ def callTags (depth : Nat → Nat) (c : Call) (direct : Bool) (before : View) (r
     | .restart => [if before.running then "restart-running" else "restart-idle", if deepExit then "stop-active-sub" else "restart"]
     | .run _ => [if !before.running then "run-idle" else if res then "run-true" else "run-false",
                  if deepExit && before.running then "sub-terminated-or-left" else "run"]
-  ((if direct then ["direct-sub-call"] else []) ++ c1 ++ tr.flatMap (evTag depth)).eraseDups
+    | .defn _ => ["defn"]
+  ((if direct then ["direct-sub-call"] else []) ++ c1 ++ tr.flatMap (evTag tpl depth)).eraseDups
 
 def newRec (k : Nat) : ARec := { mid := k, init := -1, states := [], cb := none, rt := {} }
 
@@ -270,9 +241,37 @@ def reaches : Nat → Arena → Nat → Nat → Bool
   | f + 1, g, src, dst =>
     src == dst || ((g.get src).states.filterMap (·.sub)).any (fun j => reaches f g j dst)
 
+/-- a definition call as data, the largest script target and the largest table entry its scripts name -/
+def defOp? (ws : List String) : Option (DefOp × Option Nat × Option Nat) :=
+  match ws with
+  | ["st", sid, en, ex] => do
+      let sid ← int? sid; let en ← probe? en; let ex ← probe? ex
+      pure (.newState sid en ex, maxOpt (optScriptMax en) (optScriptMax ex), maxOpt (optScriptMaxD en) (optScriptMaxD ex))
+  | ["rt", src, ev, dst, g, a] => do
+      let src ← int? src; let ev ← int? ev; let dst ← int? dst; let gd ← guard? g; let a ← probe? a
+      pure (.addRoute src { ev := ev, to := dst, guard := gd, action := a },
+            maxOpt ((gd.map (·.script)).bind scriptMax) (optScriptMax a), maxOpt ((gd.map (·.script)).bind scriptMaxD) (optScriptMaxD a))
+  | ["ev", sid, ev, tbl, sc] => do
+      let sid ← int? sid; let ev ← int? ev; let (tbl, d) ← table? tbl; let sc ← script? sc
+      pure (.addEvent sid ev { tbl := tbl, dflt := d, script := sc }, scriptMax sc, scriptMaxD sc)
+  | ["init", sid] => do let sid ← int? sid; pure (.setInit sid, none, none)
+  | ["cb", sc] => do let sc ← script? sc; pure (.setCb sc, scriptMax sc, scriptMaxD sc)
+  | ["sub", sid, j] => do let sid ← int? sid; let j ← nat? j; pure (.setSub sid j, none, none)
+  | _ => none
+
+/-- an attachment cycle is reachable from machine `k` (`path` = the machines on the way down) -/
+def cyclicFrom : Nat → Arena → List Nat → Nat → Bool
+  | 0, _, _, _ => true
+  | f + 1, g, path, k =>
+    path.contains k || ((g.get k).states.filterMap (·.sub)).any (fun j => cyclicFrom f g (k :: path) j)
+
 /-- one definition call on machine `k`; answers "<kind> <ret>" -/
 def defCall (s : DS) (k : Nat) (late : Bool) (ws : List String) : Option (DS × String) :=
   let okT (m : Option Nat) : Bool := !late || (match m with | some t => t < s.g.length | none => true)
+  let okD (ws : List String) : Bool := !late || (match defOp? ws with | some (_, _, some d) => d < s.tpl.length | _ => true)
+  let noteD (s' : DS) : DS := match defOp? ws with | some (_, _, md) => { s' with maxD := maxOpt s'.maxD md } | none => s'
+  if !okD ws then none else
+  (fun (r : Option (DS × String)) => r.map (fun p => (noteD p.1, p.2))) <|
   match ws with
   | ["st", sid, en, ex] => do
       let sid ← int? sid; let en ← probe? en; let ex ← probe? ex
@@ -326,11 +325,11 @@ def splitTarget (ws : List String) : Option (List String × Option Nat) :=
 
 def callLine (s : DS) (root : Nat) (k : Nat) (c : Call) : DS × List String :=
   let before := s.g.view k
-  let r := aCall Fix.all (fuelFor s.g) s.g k c
+  let r := dCall s.tpl (fuelFor s.g) s.g k c
   let res := match c with | .stop => "-" | _ => b01 r.2.1
   let lines := r.2.2.filterMap aevStr
   let depth := depthOf s.g root
-  let tagLine := "B " ++ " ".intercalate (callTags depth c (k != root) before r.2.1 r.2.2)
+  let tagLine := "B " ++ " ".intercalate (callTags s.tpl depth c (k != root) before r.2.1 r.2.2)
   -- the tree model, when the case is still inside its fragment
   let (tree', extra) : Option (Mach maxDepth) × List String :=
     match s.tree with
@@ -368,6 +367,8 @@ def stepLine (s : DS) (line : String) : DS × List String :=
           if k ≥ s.g.length then (s, ["bad-op"]) else
           match ws' with
           | ["json"] =>
+            -- `toJson()` recurses without bound on an attachment cycle (a `sub` entry of the table may have closed one)
+            if cyclicFrom (s.g.length + 1) s.g [] k then (s, ["bad-op"]) else
             -- `toJson()` is const: same arena, and the snapshot line shows it
             (s, [s!"B json{if k != root then "-sub" else ""}", "P J " ++ aJson (s.g.length + 1) s.g k, snapLine s.g])
           | _ =>
@@ -388,14 +389,22 @@ def stepLine (s : DS) (line : String) : DS × List String :=
         | ["mach"] =>
             let k := s.g.length
             ({ s with g := s.g ++ [newRec k], cur := some k }, [s!"P mach {k}"])
+        | "tpl" :: rest =>
+            match defOp? rest with
+            | some (d, mt, md) =>
+                let mj := match d with | .setSub _ j => some j | _ => none
+                ({ s with tpl := s.tpl ++ [d], maxT := maxOpt s.maxT mt, maxD := maxOpt s.maxD md, maxJ := maxOpt s.maxJ mj },
+                 [s!"P tpl {s.tpl.length}"])
+            | none => (s, ["bad-op"])
         | ["go", k] =>
             match nat? k with
             | none => (s, ["bad-op"])
             | some k =>
-              let tOk := match s.maxT with | some t => t < s.g.length | none => true
+              let lt (m : Option Nat) (n : Nat) : Bool := match m with | some t => t < n | none => true
+              let tOk := lt s.maxT s.g.length && lt s.maxJ s.g.length && lt s.maxD s.tpl.length
               if k ≥ s.g.length || !tOk then (s, ["bad-op"])
               else
-                let tree := if inFragment s.g k then conv maxDepth s.g k else none
+                let tree := if hier s.g k then conv maxDepth s.g k else none
                 ({ s with root := some k, tree := tree }, ["P go", snapLine s.g])
         | _ => (s, ["bad-op"])
 
